@@ -16,6 +16,14 @@ A function whose translator obligation breaks (source rewritten in a shape the t
 differently from the table) is additionally run on the pool 7 densities x 7 proportion classes x shared / per-axis
 grids (`pool_cases`) against the model and the predicates; only when that finds nothing is the broken obligation
 reported without a failing input.
+Refusal guards (`guard_vectors`, `guard_cases`): which proportion vectors a function refuses is part of the property and of the
+model (rejected (desc_args p ps); C06_rejection_characterised, C06_constructor_rejection_characterised, C06_simplex_accepted).  On
+every run every pulse function and every constructor with a proportion parameter is called on a systematic list of vectors inside,
+on the boundary of, one ulp .. 1e-12 outside, clearly outside (every "first k fine, entry k+1 tips it over" pattern), with negative
+entries and with entries above 1; the predicate "ValueError exactly when the modelled guard refuses" is evaluated on the real code
+and a disagreement is a failing input of the property (accepting a vector above 1 that the modelled guard refuses, refusing a
+simplex vector, or any other difference between the refused set and the modelled one).  The listed finding (pulses into a non-last
+population test their helper arguments, not the proportions) is matched by its key only when the modelled guard accepts as well.
 Memory layouts and pipelines (`layout_block`, `manip_layout_cases`): the model is a function of the LOGICAL content of a
 density; the implementation receives numpy arrays, and PhiManip.reorder_pops hands back a transposed VIEW.  On every run every
 constructor / pulse function / remove / filter / reorder is therefore also run on the same logical content held Fortran-ordered,
@@ -344,6 +352,141 @@ def density(rng, n, kind):
         return [x * sc for x in v]
     raise ValueError(kind)
 
+
+# ------------------------------------------------------------------------------------------------------------
+# refusal guards: the proportion test of every pulse function and constructor, on every run
+#
+# The model's decision for a call is  rejected (desc_args p ps)  (Model/PhiManip.v; characterised for all 14 pulse functions by
+# C06_rejection_characterised, for the constructors by C06_constructor_rejection_characterised, and C06_simplex_accepted on the
+# simplex).  `model_refuses` is its exact mirror (Fractions); every guard case is also decided by that very Coq term
+# (PhiManipCheck.mcheck_guard), and the two are compared (obligation "python mirror of the refusal guard").
+# Every guard vector is built so that EVERY float64 operation of the source's test (1 - p0 - p1 ..., then a0 + a1 + ... > 1)
+# is exact on it (`float_exact`, checked on every vector): the float test of the source and the exact test of the model then
+# decide the same inequality, one ulp above 1 included, and no rounding decides a branch.
+U52 = 2.0 ** -52        # one ulp of 1.0: proportions that are multiples of 2^-52 with all partial sums below 2 add exactly
+
+def guard_trace(pat, ps, num):
+    """the numbers the source's guard computes, in its order: helper arguments (1 - p0 - p1 - ... left to right), then the
+    left-to-right partial sums of the arguments; `num` = float or Fraction"""
+    out = []
+    args = []
+    for a in pat:
+        if a == 'R':
+            r = num(1)
+            for p in ps:
+                r = r - num(p); out.append(r)
+            args.append(r)
+        elif a[0] == 'Z':
+            args.append(num(int(a[1:])))
+        else:
+            args.append(num(ps[int(a[1:])]))
+    t = None
+    for f in args:
+        t = f if t is None else t + f
+        out.append(t)
+    return args, t, out
+
+def float_exact(pat, ps):
+    return [Fraction(x) for x in guard_trace(pat, ps, float)[2]] == guard_trace(pat, ps, Fraction)[2]
+
+def model_refuses(pat, ps):
+    """mirror of  rejected (desc_args p ps)  of Model/PhiManip.v: helpers with fewer than two proportion arguments have no
+    test; otherwise 1 < left-to-right sum of the helper arguments (exact)"""
+    args, t, _ = guard_trace(pat, ps, Fraction)
+    return len(args) >= 2 and t > 1
+
+ALL_BUT_ONE = {1: 1.25, 2: 0.75, 3: 0.375, 4: 0.3125}      # m*v > 1 >= (m-1)*v: every m-1 entries are fine, all m are not
+
+def guard_vectors(rng, m, reps=1):
+    """(sub-class, proportion vector) for a function with m >= 1 proportion parameters:
+    (a) inside the simplex, (b) on its boundary, (c) just outside (1 + one ulp .. 1 + 9e-13, the excess at every position),
+    (d) clearly outside in every 'first k entries fine, entry k+1 tips it over' pattern, (e) negative entries, (f) entries > 1"""
+    out = []
+    def add(sub, ps):
+        out.append((sub, [float(x) for x in ps]))
+    def e(j, v=1.0):
+        return [v if i == j else 0.0 for i in range(m)]
+    def face(k=m):
+        return simplex(rng, k, face=True)
+    def nz(ps):
+        return max(range(len(ps)), key=lambda i: ps[i])
+    h = 1.0 / (1 << m.bit_length())                    # m*h < 1
+    for rep in range(reps):
+        # (a) inside
+        if rep == 0:
+            add('a:inside', [h] * m)
+        add('a:inside', simplex(rng, m))
+        # (b) boundary: sum exactly 1 (one-hot, interior of the face, faces of the face), the origin, one ulp inside
+        if rep == 0:
+            add('b:boundary zero', [0.0] * m)
+            for j in range(m):
+                add('b:boundary one-hot', e(j))
+        add('b:boundary sum=1', face())
+        for j in range(m if m >= 2 else 0):
+            ps = face(m - 1); ps.insert(j, 0.0)
+            add('b:boundary sum=1 with a zero entry', ps)
+        ps = face(); ps[nz(ps)] -= U52
+        add('b:boundary sum=1-ulp', ps)
+        # (d) first t entries fine, entry t+1 tips the sum over 1 (later entries zero / positive); prefix summing to exactly 1
+        for t in range(m):
+            pre = [0.25] * t
+            tip = 1.0 - 0.25 * t + 0.125
+            add('d:outside entry %d tips, rest zero' % (t + 1), pre + [tip] + [0.0] * (m - t - 1))
+            if t < m - 1:
+                add('d:outside entry %d tips, rest positive' % (t + 1), pre + [tip] + [0.25] * (m - t - 1))
+            if t >= 1:
+                add('d:outside first %d sum to 1, entry %d positive' % (t, t + 1), face(t) + [0.25] + [0.0] * (m - t - 1))
+        if rep == 0:
+            add('d:outside all equal, every %d of them fine' % (m - 1), [ALL_BUT_ONE[m]] * m)
+        # (c) just outside: sum = 1 + eps with the excess carried by each position in turn; (d') the same, clearly outside
+        for j in range(m):
+            for eps in (U52, 2.0 ** -46, 2.0 ** -40):
+                ps = face(); ps[j] += eps
+                add('c:just outside sum=1+%.1e' % eps, ps)
+            add('c:just outside one-hot 1+ulp', e(j, 1.0 + U52))
+            for eps in (1 / 64, 0.25):
+                ps = face(); ps[j] += eps
+                add('d:outside sum=1+%g' % eps, ps)
+        # (e) negative entries
+        for j in range(m):
+            ps = [h] * m; ps[j] = -0.25
+            add('e:negative entry, sum<=1', ps)
+            ps = face(m - 1) if m >= 2 else []
+            ps.insert(j, -U52)
+            add('e:negative entry -ulp, others sum to 1', ps)
+            if m >= 2:
+                o = (j + 1 + rep) % m
+                if o == j:
+                    o = (j + 1) % m
+                ps = [0.25] * m; ps[j] = -0.25; ps[o] = 1.5
+                add('e:negative entry, sum>1', ps)
+                ps = [0.0] * m; ps[j] = -0.5; ps[o] = 1.25
+                add('e:negative entry cancels an entry > 1, sum<=1', ps)
+        # (f) entries above 1
+        if rep == 0:
+            for j in range(m):
+                add('f:entry>1', e(j, 1.25))
+                add('f:entry>1', e(j, 2.0))
+    return out
+
+def guard_cases(rng, quick, op, k, name, d, dest, pat, reps=1):
+    """the guard stream of one function: tiny non-negative density (3 points per axis), one shared grid"""
+    m = NPROPS[name]
+    out = []
+    dd = d + (0 if op == 'pulse' else 1)
+    nval = 0
+    for sub, ps in guard_vectors(rng, m, reps):
+        n = 3
+        # values are compared with the Coq model on two boundary vectors per function (the classes zero / onehot / interior / face
+        # of the main stream cover the rest); every other guard case compares the accept / refuse decision only
+        gval = sub == 'b:boundary sum=1-ulp' or (sub == 'b:boundary sum=1 with a zero entry' and nval < 1)
+        nval += sub == 'b:boundary sum=1 with a zero entry'
+        g = numgen.grid(rng, n)
+        grids = [list(g)] * (d + (1 if op == 'cons' else 0))
+        out.append(dict(op=op, k=k, fn=name, shape=[n] * d, grids=grids, ps=ps, phi=density(rng, n ** d, 'pos'), cls='guard', gsub=sub,
+                        dens='pos', shared=True, dest=dest, pat=pat, guard=True, gval=bool(gval)))
+    return out
+
 VALID = ['zero', 'onehot', 'interior', 'face', 'ongrid', 'ulp', 'decimal']      # classes the code must accept
 
 def admix_case(rng, quick, op, k, name, d, dest, pat, cls, dens, shared, **extra):
@@ -631,6 +774,10 @@ def gen_cases(ctx, refused=()):
             for rep in range(ctx.pick(1, 3)):
                 for c in layout_block(rng, ctx.quick, op, k, name, d, dest, pat, fi + rep, rot):
                     add(**c)
+            # refusal guards: every function with a proportion parameter, on every run
+            if m > 0:
+                for c in guard_cases(rng, ctx.quick, op, k, name, d, dest, pat, reps=ctx.pick(1, 3)):
+                    add(**c)
             if name in refused:
                 for c in pool_cases(rng, ctx.quick, op, k, name, d, dest, pat, reps=ctx.pick(1, 2)):
                     add(**c)
@@ -726,13 +873,31 @@ def predicates(ctx, c, r):
     sc = max(abs(x) for x in c['phi']) or 1.0
     ps = c['ps']
     if op in ('pulse', 'cons') and NPROPS[c['fn']] > 0:
-        above = sum(Fraction(p) for p in model_ps(c)) > 1
+        mps = model_ps(c)
+        above = sum(Fraction(p) for p in mps) > 1
+        inside = in_simplex(mps)
+        mref = model_refuses(c['pat'], mps)       # the model's guard: rejected (desc_args p ps), exact
+        sub = (' [guard class %s]' % c['gsub']) if c.get('gsub') else ''
         if above and not r['raised'] and op == 'pulse':
-            bad.append(('%s accepts proportions %r summing above 1 (no ValueError)' % (c['fn'], ps), 'sum-above-one-not-rejected:' + c['fn']))
-        if in_simplex(model_ps(c)) and r['raised']:
-            bad.append(('%s rejects the proportion vector %r, which lies in the simplex: %s' % (c['fn'], ps, r.get('error')), None))
-        if above or r['raised']:
-            return bad
+            if mref:
+                # the modelled guard (the one of the unchanged source) refuses this vector: not the listed finding of the pulses
+                # into a non-last population (their modelled guard accepts)
+                bad.append(('%s accepts proportions %r summing above 1 (no ValueError); the modelled guard of this function refuses them '
+                            '(C06_rejection_characterised)%s' % (c['fn'], ps, sub), None, (c['fn'], 'accepts-above-one', min(ps) >= 0), 0 if min(ps) >= 0 else 1))
+            else:
+                bad.append(('%s accepts proportions %r summing above 1 (no ValueError)' % (c['fn'], ps), 'sum-above-one-not-rejected:' + c['fn']))
+        elif inside and r['raised']:
+            bad.append(('%s rejects the proportion vector %r, which lies in the simplex: %s%s' % (c['fn'], ps, r.get('error'), sub), None,
+                        (c['fn'], 'rejects-simplex'), 0))
+        elif mref and not r['raised']:
+            bad.append(('%s accepts the proportion vector %r (no ValueError), which its modelled guard refuses (%s)%s' % (
+                c['fn'], ps, 'C06_rejection_characterised' if op == 'pulse' else 'C06_constructor_rejection_characterised', sub), None,
+                (c['fn'], 'accepts-where-model-refuses'), 1))
+        elif r['raised'] and not mref:
+            bad.append(('%s refuses the proportion vector %r (outside the simplex), which its modelled guard accepts: the set of refused '
+                        'vectors is not the modelled one: %s%s' % (c['fn'], ps, r.get('error'), sub), None, (c['fn'], 'refuses-where-model-accepts'), 2))
+        if above or r['raised'] or not inside:
+            return bad        # conservation is claimed on the simplex
     if r['raised']:
         return bad
     if not c.get('shared', True) and op == 'pulse' and c['fn'] in OTHER_GRID:
@@ -865,6 +1030,10 @@ def coq_case(c, r, valcmp):
              'remove': lambda: 'OpRemove %d' % c['arg'], 'filter': lambda: 'OpFilter %s' % natl(c['arg']),
              'reorder': lambda: 'OpReorder %s' % natl(c['arg'])}[op]()
     concl = bool(valcmp and op in ('pulse', 'cons') and (c.get('shared') or c['fn'] not in OTHER_GRID))
+    if not valcmp and op in ('pulse', 'cons'):
+        # accept / refuse decision only: mcheck_guard evaluates rejected (desc_args p ps) and nothing else (C06_guard_check_is_the_model)
+        return ('{| mc_op := %s; mc_shape := %s; mc_grids := []; mc_ps := %s; mc_phi := []; mc_valcmp := false; mc_concl := false; '
+                'mc_raised := %s; mc_ishape := []; mc_impl := [] |}') % (optxt, natl(c['shape']), zzl(model_ps(c)), b(r['raised']))
     return ('{| mc_op := %s; mc_shape := %s; mc_grids := [%s]; mc_ps := %s; mc_phi := %s; mc_valcmp := %s; mc_concl := %s; mc_raised := %s; '
             'mc_ishape := %s; mc_impl := %s |}') % (
         optxt, natl(c['shape']), '; '.join(zzl(g) for g in c['grids']), zzl(model_ps(c)), zzl(c['phi']), b(valcmp), b(concl), b(r['raised']),
@@ -886,6 +1055,13 @@ def run(ctx):
                 'logical content held Fortran-ordered / as a transposed view / with negative strides / as every other cell of a larger '
                 'NaN-filled array, and on the object returned by the call before in the pipelines reorder_pops -> f, reorder_pops -> pulse -> '
                 'remove_pop, constructor -> reorder_pops -> pulse (each step one case; an untied function gets these for every accepted class); '
+                'REFUSAL GUARDS, every run, every pulse function and every constructor with a proportion parameter (guard_vectors): '
+                'proportion vectors inside the simplex / on its boundary (one-hot, sum exactly 1, with zero entries, origin, sum = 1 - 2^-52) / '
+                'just outside (sum = 1 + 2^-52, 1 + 2^-46, 1 + 2^-40, the excess at every position; one-hot 1 + 2^-52) / clearly outside in '
+                'every pattern "first k entries fine, entry k+1 tips the sum over 1" (later entries zero or positive; first k summing to '
+                'exactly 1), all entries equal with every m-1 of them summing to at most 1, excess 1/64 and 1/4 at every position / negative '
+                'entries (sum below 1, -2^-52, sum above 1, cancelling an entry above 1) / entries above 1; every vector exact in every '
+                'float64 operation of the source\'s test; predicate on the real code: ValueError exactly when the modelled guard refuses; '
                 'distinct = distinct (function, shape, grids, proportions, density); non-trivial = not all proportions zero')
     ctx.assumptions += ['float64 output of the real code is compared with the model evaluated in 128-bit software floating point (NumD, exact comparisons) at 1e-10 relative to the largest entry',
                         'the deposit is continuous in the ad-mixed frequency across grid points, so a one-ulp difference between float and exact evaluation of the frequency changes the bracket but not the result beyond round-off',
@@ -914,6 +1090,8 @@ def run(ctx):
         byid[vc['id']] = r; tops[vc['id']] = (top, j)
         cases.append(vc)
     exprs = []
+    mirror = {}
+    nonexact = []
     npred = {}
     reported = set()
     for c in cases:
@@ -959,31 +1137,57 @@ def run(ctx):
             continue
         finite = r['raised'] or all(math.isfinite(x) for x in r['res'])
         # --- property predicates on the implementation
-        bad = predicates(ctx, c, r) + layout_predicates(ctx, c, r)
+        bad = [(tuple(t) + (None, 0))[:4] for t in predicates(ctx, c, r) + layout_predicates(ctx, c, r)]
+        if c.get('guard'):
+            ctx.count('guard stream: ' + c['gsub'].split(':')[0] + ' ' + ('refused' if r['raised'] else 'accepted'))
+            ctx.count('guard stream: %s' % c['fn'])
+            gexact = float_exact(c['pat'], c['ps'])
+            if not gexact:
+                nonexact.append((c['fn'], c['ps']))
         pname = {'pulse': 'marginals of the other populations / zero identity / acceptance', 'cons': 'new-population marginal / bracketing / copy / acceptance',
                  'split12': 'new-population marginal', 'remove': 'remove = marginalisation', 'filter': 'filter = marginalisation', 'reorder': 'reorder = permutation'}[c['op']]
-        known = [k for _, k in bad if k is not None]
-        ob = ctx.obligation('%s case %d (%s, %s density%s%s): %s' % (c['fn'], c['id'], c['cls'], c.get('dens', '?'),
+        known = [t[1] for t in bad if t[1] is not None]
+        ob = ctx.obligation('%s case %d (%s, %s density%s%s): %s' % (c['fn'], c['id'], ('guard ' + c['gsub']) if c.get('gsub') else c['cls'], c.get('dens', '?'),
                                                                    '' if c.get('shared', True) else ', per-axis grids',
                                                                    ', step %d of %s' % (j + 1, top['pipe']) if 'steps' in top else
                                                                    ', layout ' + top['layout'] if top.get('layout', 'C') != 'C' else '', pname),
-                            not bad, 'predicate', '; '.join(w for w, _ in bad)[:400])
+                            not bad, 'predicate', '; '.join(t[0] for t in bad)[:400])
         if bad:
             ctx.obligations[-1]['known_key'] = known[0] if len(known) == len(bad) else None
-        for what, key in bad:
-            tag = key or (c['fn'], what[:40])
+        for what, key, tag, prio in bad:
+            tag = key or tag or (c['fn'], what[:40])
             if tag in reported:
                 continue
             reported.add(tag)
             ctx.violation(what + where(c, top, j), data=vdata, key=key)
+            ctx.violations[-1]['prio'] = prio
         # --- correspondence
         above = c['op'] in ('pulse', 'cons') and NPROPS[c['fn']] > 0 and sum(Fraction(p) for p in model_ps(c)) > 1
         valcmp = finite and not above and not r['raised']
+        if c['op'] in ('pulse', 'cons') and NPROPS[c['fn']] > 0:
+            # values are compared on the simplex only (outside it the deposit may divide by a vanishing denominator; the property
+            # claims nothing there beyond the refusal), and in the guard stream on the marked boundary vectors
+            valcmp = valcmp and in_simplex(model_ps(c)) and (not c.get('guard') or bool(c.get('gval')))
+            mirror[c['id']] = (valcmp, model_refuses(c['pat'], model_ps(c)), r['raised'])
         exprs.append((c['id'], coq_case(c, r, valcmp)))
     hdr = ('From Coq Require Import String.\nFrom Coq Require Import ZArith QArith List.\n'
            'From Dadi Require Import Base.Num Base.NumQ Base.NumD Model.Tridiag Model.Scheme Model.NDSweep Model.PhiManip Model.PhiManipCheck.\n'
            'Import ListNotations.\nOpen Scope Q_scope.')
-    results = ctx.coq_cases('corr', hdr, exprs, '(mcheck %s)' % q(TOL), 'rel 1e-10 of max |entry|', shard=ctx.pick(10, 24), timeout=1500)
+    results = ctx.coq_cases('corr', hdr, exprs, '(mcheck_guard %s)' % q(TOL), 'rel 1e-10 of max |entry|', shard=ctx.pick(10, 24), timeout=1500)
+    ctx.obligation('guard stream: every float64 operation of the source\'s proportion test is exact on every generated guard vector '
+                   '(float test of the source = exact test of the model)', not nonexact, 'predicate', repr(nonexact[:3]))
+    # the Python mirror of the refusal guard (used for the violation texts and the known-finding keys) against the Coq term: on a
+    # decision-only case Coq's verdict is "model refuses = implementation raised"
+    wrong = []
+    for cid, (valcmp, mref, raised) in mirror.items():
+        rr = results.get(cid)
+        if rr is None or valcmp:
+            continue
+        coq_refuses = raised if rr[0] else not raised
+        if coq_refuses != mref:
+            wrong.append(cid)
+    ctx.obligation('python mirror of the refusal guard = rejected (desc_args p ps) evaluated in Coq, on every decision-only case (%d)' % (
+        sum(1 for v in mirror.values() if not v[0])), not wrong, 'predicate', 'cases %r' % wrong[:5])
     nbad = 0
     for c in cases:
         if c['id'] not in dict(exprs):
